@@ -448,9 +448,7 @@ func collectRaces(work string) []raceReport {
 				if strings.HasPrefix(t, "Read at") || strings.HasPrefix(t, "Write at") || strings.HasPrefix(t, "Previous read at") || strings.HasPrefix(t, "Previous write at") {
 					if i+1 < len(lines) {
 						fn := strings.TrimSpace(lines[i+1])
-						if k := strings.Index(fn, "("); k > 0 {
-							fn = fn[:k]
-						}
+						fn = strings.TrimSuffix(fn, "()")
 						fr = append(fr, fn)
 					}
 				}
